@@ -15,7 +15,7 @@ def configs(nmax, bmax, wmax=2, entries=conc.ENTRIES):
         for n in range(0, nmax + 1):
             for b in range(1, bmax + 1):
                 ws = (1,) if entry in ('stp', 'pf1') else \
-                    tuple(range(2, wmax + 1)) if entry in ('pft', 'chain', 'chainmid', 'chainpar') else \
+                    tuple(range(2, wmax + 1)) if entry in ('pft', 'chain', 'chainmid', 'chainpar', 'parpf1') else \
                     tuple(range(1, wmax + 1))
                 for w in ws:
                     if b < w:
